@@ -2,7 +2,7 @@
    quietly weakened; the lemmas live in Proofs_*.v; the model in Model.v; Gen/C17.v is
    regenerated from /repo on every run. *)
 From Coq Require Import String Permutation Sorting.Sorted.
-From Sdns Require Import Common.Base Common.GoList Gen.C17 C17.Model C17.Proofs_arith C17.Proofs_search C17.Run C17.Proofs_set C17.Proofs_loops C17.Proofs_writer C17.Proofs_policy C17.Proofs_views C17.Proofs_handler.
+From Sdns Require Import Common.Base Common.GoList Gen.C17 C17.Model C17.Proofs_arith C17.Proofs_search C17.Run C17.Proofs_set C17.Proofs_loops C17.Proofs_writer C17.Proofs_policy C17.Proofs_views C17.Proofs_closest C17.Proofs_recspec C17.Proofs_handler.
 Open Scope N_scope.
 
 (* translator ties: the Go functions, as translated from the source now, are the order on
@@ -158,6 +158,13 @@ Theorem subquery_writer_is_internal :
   (forall w, r_says subquery_remote = Some (go_BufferWriter_Internal w)).
 Proof. exact subquery_internal. Qed.
 Print Assumptions subquery_writer_is_internal.
+
+(* translator tie: the getters the handlers call (ch.Writer.Internal(), ch.Writer.RemoteIP()) return the fields Reset
+   stored - the model's [writer_internal r] / [writer_remote_ip r] are what every handler sees *)
+Theorem writer_getters_read_what_reset_stored : forall w,
+  go_responseWriter_Internal w = T_responseWriter_internal w /\ go_responseWriter_RemoteIP w = T_responseWriter_remoteip w.
+Proof. exact writer_getters. Qed.
+Print Assumptions writer_getters_read_what_reset_stored.
 
 (* the DoH / DoH3 writer (internal/mock.Writer) computes its own Internal() by the same rule and so
    adds nothing: behind it a request is internal exactly on the address signature *)
@@ -419,6 +426,112 @@ Example chain_examples :
   walk (client 3405803785) (b "x.example."%string) 1 = CDrop /\
   (* a genuine sub-query passes both and is resolved *)
   walk subquery_remote (b "x.example."%string) 1 = CResolve.
+Proof. vm_compute. repeat split. Qed.
+
+(* ---- which records a matched view serves, in closed form (session 5): closest encloser ---- *)
+
+(* the selection loop of views.ServeDNS returns, for EVERY record list and question: all the matching records with a
+   non-wildcard owner in configuration order - or, there being none, all the matching wildcard records whose owner is
+   as long as the longest matching wildcard owner, in configuration order ([closest_answer]: filters and a maximum,
+   no loop state) *)
+Theorem view_answer_is_closest_encloser_selection : forall answers qname qtype,
+  view_answer answers qname qtype = closest_answer answers qname qtype.
+Proof. exact view_answer_closed. Qed.
+Print Assumptions view_answer_is_closest_encloser_selection.
+
+Theorem exact_owner_matches_are_all_served : forall answers qname qtype,
+  let q := go_canonical_name_ascii qname in
+  existsb (fun rr => rec_matches q qtype rr && negb (wildcard_owner (go_canonical_name_ascii (fst rr)))) answers = true ->
+  forall j, In j (view_answer answers qname qtype) <-> exact_rec answers q qtype j.
+Proof. exact exact_matches_are_all_served. Qed.
+Print Assumptions exact_owner_matches_are_all_served.
+
+(* no exact-owner match: record j is served iff it is a matching wildcard and no matching wildcard has a longer owner *)
+Theorem wildcards_served_are_exactly_the_closest : forall answers qname qtype,
+  let q := go_canonical_name_ascii qname in
+  existsb (fun rr => rec_matches q qtype rr && negb (wildcard_owner (go_canonical_name_ascii (fst rr)))) answers = false ->
+  forall j, In j (view_answer answers qname qtype) <->
+            exists rr, nth_error answers j = Some rr /\ rec_matches q qtype rr = true /\
+                       wildcard_owner (go_canonical_name_ascii (fst rr)) = true /\
+                       forall k rr', nth_error answers k = Some rr' -> rec_matches q qtype rr' = true ->
+                                     wildcard_owner (go_canonical_name_ascii (fst rr')) = true ->
+                                     (go_len (go_canonical_name_ascii (fst rr')) <= go_len (go_canonical_name_ascii (fst rr)))%Z.
+Proof. exact wildcards_served_are_the_closest. Qed.
+Print Assumptions wildcards_served_are_exactly_the_closest.
+
+(* ... and that is what the INDEPENDENT specification oracle of Run.v says ([spec_view_answer]: its own cover test by
+   skipn / nth, its own wildcard test, owner lengths and their maximum - the formulation every viewrec / viewsfull /
+   chain-view case is judged by), for every record list whose owners are fully qualified (what dns.NewRR hands
+   views.New) and every question: on this case kind "model = observed" implies "observed satisfies the specification" *)
+Theorem view_answer_is_the_specified_selection : forall answers qname qtype,
+  Forall (fun rr => go_is_fqdn_ascii (fst rr) = true) answers ->
+  view_answer answers qname qtype = spec_view_answer answers qname qtype.
+Proof. exact view_answer_is_spec. Qed.
+Print Assumptions view_answer_is_the_specified_selection.
+
+(* the two cover tests - views.nameMatches as translated from the source, and the specification's - agree on every
+   owner in canonical form and every name *)
+Theorem nameMatches_is_the_specified_cover : forall o q,
+  go_canonical_name_ascii o = o -> go_nameMatches o q = spec_covers o q.
+Proof. exact covers_agree. Qed.
+Print Assumptions nameMatches_is_the_specified_cover.
+
+Example closest_encloser_examples :
+  let b := bytes_of in
+  let recs := [(b "*.example."%string, 1); (b "*.a.example."%string, 1); (b "*.EXAMPLE."%string, 1); (b "*.a.example"%string, 1);
+               (b "*.b.a.example."%string, 28); (b "*."%string, 1)] in
+  (* two equally close wildcards (one written without the final dot): both, in order; the shorter ones and the root wildcard lose *)
+  view_answer recs (b "x.a.example."%string) 1 = [1%nat; 3%nat] /\
+  closest_answer recs (b "x.a.example."%string) 1 = [1%nat; 3%nat] /\
+  view_answer recs (b "y.example."%string) 1 = [0%nat; 2%nat] /\
+  (* only the root wildcard covers it (depth 0 = the loop's initial best) *)
+  view_answer recs (b "other.test."%string) 1 = [5%nat] /\
+  (* the deeper wildcard is of another type: not a candidate *)
+  view_answer recs (b "x.b.a.example."%string) 1 = [1%nat; 3%nat] /\
+  (* fully qualified owners (hypothesis of view_answer_is_the_specified_selection) and the oracle's verdict on them *)
+  let fq := [(b "*.example."%string, 1); (b "*.a.example."%string, 1); (b "HOST.a.example."%string, 1)] in
+  Forall (fun rr => go_is_fqdn_ascii (fst rr) = true) fq /\
+  spec_view_answer fq (b "x.a.example."%string) 1 = [1%nat] /\ spec_view_answer fq (b "host.A.example."%string) 1 = [2%nat].
+Proof. vm_compute. repeat split; repeat constructor. Qed.
+
+(* ---- a resolver-internal sub-query against access list and views (session 5): two independent mechanisms ---- *)
+
+(* the flag alone: an internal request passes the access list and views in ANY pipeline - whatever handlers it holds, in
+   whatever order - for every list, view configuration and question *)
+Theorem internal_request_passes_any_pipeline : forall order acl views r q t,
+  writer_internal r = true -> chain_walk order acl views r q t = CResolve.
+Proof. exact internal_walk_resolves. Qed.
+Print Assumptions internal_request_passes_any_pipeline.
+
+(* the pipeline alone: a pipeline that holds neither the access list nor views polices nobody, whoever asks *)
+Theorem policy_free_pipeline_polices_nobody : forall order acl views r q t,
+  policy_free order = true -> chain_walk order acl views r q t = CResolve.
+Proof. exact policy_free_walk_resolves. Qed.
+Print Assumptions policy_free_pipeline_polices_nobody.
+
+(* both hold for what the source builds NOW (handler order, ClientOnly set, sub-query writer): a sub-query through the
+   queryer (via 0) or the prefetch queryer (via 1) is resolved whatever the access list and the views say *)
+Theorem subquery_is_never_subjected_to_access_or_view_policy : forall via acl views q t,
+  subquery_walk handler_order via acl views q t = CResolve /\
+  policy_free (sub_order handler_order via) = true /\ writer_internal subquery_remote = true.
+Proof. exact subquery_never_policed. Qed.
+Print Assumptions subquery_is_never_subjected_to_access_or_view_policy.
+
+Example subquery_walk_examples :
+  let b := bytes_of in
+  let views := compiled_views [([mk_prefix true 2130706432 8], [(b "host.example."%string, 1)])] in          (* 127.0.0.0/8 *)
+  let deny_all := new_set (acl_effective 1 []) in                                                             (* one entry, unparsable *)
+  let loopback := new_set (acl_effective 1 [mk_prefix true 2130706432 8]) in
+  let tcp_client := mk_remote KTcp (Some (mk_addr true 2130706687)) 40000 None in                             (* 127.0.0.255:40000 *)
+  (* a CLIENT from the sub-query writer's address is policed: dropped by the deny-all list, answered by its view *)
+  chain_walk handler_order deny_all views tcp_client (b "host.example."%string) 1 = CDrop /\
+  chain_walk handler_order loopback views tcp_client (b "host.example."%string) 1 = CView 0 [0%nat] /\
+  (* the sub-query is not: through either sub-pipeline, and even through the full client chain *)
+  subquery_walk handler_order 0 deny_all views (b "host.example."%string) 1 = CResolve /\
+  subquery_walk handler_order 1 loopback views (b "host.example."%string) 1 = CResolve /\
+  chain_walk handler_order deny_all views subquery_remote (b "host.example."%string) 1 = CResolve /\
+  (* the client chain itself is not policy-free *)
+  policy_free handler_order = false.
 Proof. vm_compute. repeat split. Qed.
 
 (* non-vacuity: concrete lists and addresses meeting the hypotheses, with both verdicts *)
